@@ -116,6 +116,9 @@ package transport_controller
 // (same UUID) is never removed, and nothing is inserted or changed.
 //@ func (*transportHandler).HandleLinkLost
 //@   noframe
+// the resolvers that report links sleep on the controller's broadcast: a section that removes a link
+// has to wake them (structural clause: the callback calls `broadcast`, its only function-valued call)
+//@   assert at call! funcvalue: true
 //@   requires h.c != nil && lnk != nil
 //@   cs Controller.bcast ensures forall u uint64 trigger dom(self.links, u) :: old(u in self.links) && !(u in self.links) ==> old(self.links[u]).lnk == lnk
 //@   cs Controller.bcast ensures forall u uint64 trigger dom(self.links, u) :: (u in self.links) ==> old(u in self.links) && self.links[u] == old(self.links[u])
